@@ -160,25 +160,48 @@ func c13Check(c c13Case) (sig, msg string) {
 		return "location-is-not-the-authorization-endpoint own_query=" + fmt.Sprint(ep.Query != ""),
 			fmt.Sprintf("Location %q splits into %+v, endpoint %+v", r1.Location, loc, ep)
 	}
-	got, err := queryPairs(loc.Query)
+	// the endpoint's own parameters must be retained verbatim (raw pairs, as a multiset); what remains must decode to
+	// exactly the eight protocol parameters
+	var rawLoc []string
+	if loc.Query != "" {
+		rawLoc = strings.Split(loc.Query, "&")
+	}
+	var rest []string
+	ownLeft := map[string]int{}
+	if ep.Query != "" {
+		for _, kv := range strings.Split(ep.Query, "&") {
+			ownLeft[kv]++
+		}
+	}
+	for _, kv := range rawLoc {
+		if ownLeft[kv] > 0 {
+			ownLeft[kv]--
+			continue
+		}
+		rest = append(rest, kv)
+	}
+	for kv, n := range ownLeft {
+		if n > 0 {
+			return "authorization-endpoint-own-query-not-retained", fmt.Sprintf("the endpoint's own parameter %q is missing from Location %q", kv, r1.Location)
+		}
+	}
+	got, err := queryPairs(strings.Join(rest, "&"))
 	if err != nil {
 		return "location-query-undecodable", err.Error()
 	}
-	own, _ := queryPairs(ep.Query)
 	sid := w.SessionFromSetCookie(r1)
 	g := w.Store.Ghost[sid]
 	if g == nil || g.State == nil {
 		return "no-login-state-stored", "no authorization state under the new session"
 	}
 	scope := strings.Join(c.Scopes, " ")
-	want := append([][2]string{}, own...)
-	want = append(want,
-		[2]string{"response_type", "code"}, [2]string{"client_id", c.ClientID}, [2]string{"redirect_uri", c.Callback},
-		[2]string{"scope", scope}, [2]string{"state", g.State.State}, [2]string{"nonce", g.State.Nonce},
-		[2]string{"code_challenge", s256ref(g.State.CodeVerifier)}, [2]string{"code_challenge_method", "S256"})
+	want := [][2]string{
+		{"response_type", "code"}, {"client_id", c.ClientID}, {"redirect_uri", c.Callback},
+		{"scope", scope}, {"state", g.State.State}, {"nonce", g.State.Nonce},
+		{"code_challenge", s256ref(g.State.CodeVerifier)}, {"code_challenge_method", "S256"}}
 	if fmt.Sprint(sortedPairs(got)) != fmt.Sprint(sortedPairs(want)) {
 		return "authorization-query-mismatch own_query=" + fmt.Sprint(ep.Query != ""),
-			fmt.Sprintf("Location query decodes to %v, expected %v", sortedPairs(got), sortedPairs(want))
+			fmt.Sprintf("Location query (without the endpoint's own pairs) decodes to %v, expected %v", sortedPairs(got), sortedPairs(want))
 	}
 	if !strings.Contains(" "+scope+" ", " openid ") {
 		return "harness", "scope alphabet without openid"
@@ -221,10 +244,11 @@ func c13Run(run *ev.Run) {
 	clientIDs := []string{"cid", "c id", "a&b=c", "a+b", "%41", "ü"}
 	scopes := [][]string{{"openid"}, {"openid", "e mail"}, {"a&b", "openid"}}
 	callbacks := []string{world.CallbackURI, "https://h:8443/cb?x=1", "https://h/c%20b"}
-	authz := []string{"https://idp.test/auth", "https://idp.test/auth?p=1", "https://idp.test/auth?p=a%20b&q=", "https://idp.test/a%20th"}
+	authz := []string{"https://idp.test/auth", "https://idp.test/auth?p=1", "https://idp.test/auth?p=a%20b&q=", "https://idp.test/a%20th",
+		"https://idp.test/auth?tenant=acme;eu&flow=web", "https://idp.test/auth?flow=web&hint=100%", "https://idp.test/auth?a=1&a=2&b"}
 	type tgt struct{ scheme, host, target string }
 	targets := []tgt{{"https", "app.test", "/"}, {"https", "app.test", "/a?x=1&y=%2F"}, {"http", "app.test:8080", "/p?next=https%3A%2F%2Fe.com%2F%3Fa%3Db"},
-		{"https", "app.test", "/s;v=1/@:,"}, {"https", "app.test", "/q?a=b&a=c"}, {"https", "app.test", "/q?%zz"}, {"https", "app.test", "/\xc3\xbc?\xff=\xfe"}}
+		{"https", "app.test", "/s;v=1/@:,"}, {"https", "app.test", "/q?a=b&a=c"}, {"https", "app.test", "/q?%zz"}, {"https", "app.test", "/d%20ir/f%2Fg/100%25"}, {"https", "app.test", "/\xc3\xbc?\xff=\xfe"}}
 	stores := []string{"memory"}
 	if run.Tier == "thorough" {
 		stores = []string{"memory", "redis"}
